@@ -217,12 +217,23 @@ def check_search_sequence(case):
         if pos is not None:
             x[pos] = val
         xf = [float(v) for v in x]
-        for fn in ("lower", "higher", "closest"):
-            got = [int(g) for g in _fast(S, fn, x, q, True)]
+        for fn in ("lower", "higher", "closest", "disp:closest"):
+            res = _fast(S, fn, x, q, True)
+            got = [int(g) for g in res]
             exp = _expected(fn, xf, [float(v) for v in q], True)
             if got != exp:
                 fails.append({"clause": "index-after-in-place-edit", "detail": {"step": step, "fn": fn, "x": xf, "expected": exp, "observed": got},
-                              "key": {"fn": fn, "sequence": True}})
+                              "key": {"fn": fn.split(":")[0], "sequence": True}})
+                return fails
+            # the caller owns the index array it was handed: scribble on it, then ask again with the same arguments
+            try:
+                res[...] = -7
+            except Exception:
+                pass
+            got2 = [int(g) for g in _fast(S, fn, x, q, True)]
+            if got2 != exp:
+                fails.append({"clause": "index-after-caller-edited-previous-result", "detail": {"step": step, "fn": fn, "expected": exp, "observed": got2},
+                              "key": {"fn": fn.split(":")[0], "sequence": True}})
                 return fails
     return fails
 
